@@ -158,11 +158,10 @@ def run_job(args):
             neg = z3.Not(term)
             if regions:
                 R = z3.Or(*[r for _, r in regions])
-                q = e.check(neg, z3.Not(R))
+                q, m = e.decide(neg, z3.Not(R))
             else:
-                q = e.check(neg)
+                q, m = e.decide(neg)
             if q == z3.sat:
-                m = e.solver.model()
                 if len(res["violations"]) < max_viol:
                     v = confirm(cx, label, m)
                     if v is not None:
@@ -172,8 +171,9 @@ def run_job(args):
             for k, r in regions:
                 if any(hit["entry"] == k["id"] for hit in res["known_hits"]):
                     continue
-                if e.check(neg, r) == z3.sat:
-                    res["known_hits"].append({"entry": k["id"], "values": cx.values_of(e.solver.model()), "label": label})
+                kq, km = e.decide(neg, r)
+                if kq == z3.sat:
+                    res["known_hits"].append({"entry": k["id"], "values": cx.values_of(km), "label": label})
         oc = out[0] if isinstance(out, (tuple, list)) and out and isinstance(out[0], str) else type(out).__name__
         res["outcomes"][oc] = res["outcomes"].get(oc, 0) + 1
         # concolic cross-check of this path against the un-instrumented code
